@@ -79,6 +79,12 @@ class Machine:
             return binop(op, left, right)
         if k == 'function':
             name = v['name']
+            if name == 'if':
+                # the hard-wired special form: condition first, then only the selected arm; missing arms are null
+                arms = v.get('args') or []
+                cond = self.ev(arms[0], loc) if len(arms) >= 1 else False
+                pick = 1 if rv.truthy(cond) else 2
+                return self.ev(arms[pick], loc) if len(arms) > pick else None
             args = [self.ev(a, loc) for a in v.get('args', [])]
             return self.call(name, args, loc)
         raise ValueError(k)
